@@ -366,9 +366,31 @@ func populate(t reflect.Type, schemaTag string, seed *int, depth int) reflect.Va
 			v.SetString(fmt.Sprintf("s%d-é\n", s%1000))
 		}
 	case reflect.Int, reflect.Int8, reflect.Int16, reflect.Int32, reflect.Int64:
-		v.SetInt(int64(1 + s%100))
+		bits := uint(t.Bits())
+		switch {
+		case strings.Contains(schemaTag, "imum=") || strings.Contains(schemaTag, "multipleOf") || strings.Contains(schemaTag, "enum="):
+			v.SetInt(int64(1 + s%100))
+		case s%5 == 1:
+			v.SetInt(int64(1)<<(bits-1) - 1) // the type's largest value
+		case s%5 == 2:
+			v.SetInt(-(int64(1) << (bits - 1))) // its smallest
+		case s%5 == 3:
+			v.SetInt(-int64(1 + s%100))
+		default:
+			v.SetInt(int64(1 + s%100))
+		}
 	case reflect.Uint, reflect.Uint8, reflect.Uint16, reflect.Uint32, reflect.Uint64:
-		v.SetUint(uint64(1 + s%100))
+		bits := uint(t.Bits())
+		switch {
+		case strings.Contains(schemaTag, "imum=") || strings.Contains(schemaTag, "multipleOf") || strings.Contains(schemaTag, "enum="):
+			v.SetUint(uint64(1 + s%100))
+		case s%5 == 1:
+			v.SetUint(^uint64(0) >> (64 - bits)) // the type's largest value
+		case s%5 == 2:
+			v.SetUint(uint64(1)<<(bits-1) + uint64(s%100)) // in the upper half of its range
+		default:
+			v.SetUint(uint64(1 + s%100)) // never zero: the field-name oracle wants every omitempty field emitted
+		}
 	case reflect.Float32, reflect.Float64:
 		v.SetFloat(float64(1+s%100) / 2)
 	case reflect.Slice:
